@@ -128,6 +128,22 @@ theorem optDecAttr_notExtant (c : Codec) (v : Val) (h : v.isExtant = false) :
     optDecAttr c v = (c.decAttr v).map .some := by
   cases v <;> simp [optDecAttr, Val.isExtant] at h ⊢
 
+theorem optBodyOK_spec (names : List String) (t : Ty) (h : optBodyOK names t = true) :
+    bodySafe names t = true ∧ acceptsBare t = false := by
+  cases t <;> simp [optBodyOK] at h <;> simp [bodySafe, acceptsBare, h] <;> exact h
+
+theorem optDecBody_split (c : Codec) (b : Val) (h1 : b.isExtant = false) (h2 : ∀ items, b ≠ .record [] items) :
+    optDecBody c (bodySplit b).1 (bodySplit b).2 = (c.decBody (bodySplit b).1 (bodySplit b).2).map .some := by
+  cases b with
+  | extant => simp [Val.isExtant] at h1
+  | num k n => simp [bodySplit, optDecBody]
+  | bool v => simp [bodySplit, optDecBody]
+  | text v => simp [bodySplit, optDecBody]
+  | record attrs items =>
+    cases attrs with
+    | nil => exact absurd rfl (h2 items)
+    | cons a as => simp [bodySplit, optDecBody]
+
 theorem good_opt (t : Ty) (g : Good t) (hne : acceptsExtant t = false) : Good (.opt t) where
   dec_enc := by
     intro x hx
@@ -146,7 +162,22 @@ theorem good_opt (t : Ty) (g : Good t) (hne : acceptsExtant t = false) : Good (.
       have h1 := g.notExtant hne y hx
       simp only [codecOf, optCodec]
       rw [optDecAttr_notExtant _ _ h1, g.attr ha' y hx]; rfl
-  body := by intro names h; simp [bodySafe] at h
+  body := by
+    intro names h x hx
+    have hspec := optBodyOK_spec names t (by simpa [bodySafe] using h)
+    cases x <;> simp [okInst] at hx
+    · simp [codecOf, optCodec, bodySplit, optDecBody, Generated.emptyBodyAcceptsExtant]
+    · rename_i y
+      have hb := g.body names hspec.1 y hx
+      have h1 := g.notExtant hne y hx
+      have h2 : ∀ items, (codecOf t).enc y ≠ .record [] items := by
+        intro items e
+        have := g.dec_enc y hx
+        rw [e, g.bare hspec.2 items] at this
+        cases this
+      simp only [codecOf, optCodec]
+      rw [optDecBody_split _ _ h1 h2, hb.1]
+      exact ⟨rfl, hb.2⟩
   omitted := by
     intro x hx h
     cases x <;> simp [codecOf, optCodec] at h ⊢
@@ -520,6 +551,99 @@ theorem good_enum (vs : Variants) (hd : distinct (variantTags vs) = true) (hv : 
   · intro _ x _ rest; simp [codecOf, enumCodec, enumDec]
   · intro h; simp [hasDflt] at h
 
+/-! ### `#[form(newtype)]` -/
+
+theorem dflt_of_isDflt (t : Ty) (x : Inst) (h1 : hasDflt t = true) (h2 : isDflt t x = true) :
+    (codecOf t).dflt = some x := by
+  cases t <;> simp [hasDflt] at h1 <;> cases x <;> simp [isDflt] at h2 <;>
+    simp [codecOf, intCodec, boolCodec, textCodec, unitCodec, optCodec, listCodec, h2]
+
+/-- all fields of an `allSkip` tail are skipped and hold their default -/
+theorem allSkip_fields : (fs : Fields) → allSkip fs = true → (k : Nat) → (pre xs : List Inst) → pre.length = k →
+    okFields fs xs = true →
+    ∀ g ∈ fieldCs fs k, g.kind = .skip ∧ g.c.dflt = some (fieldVal (pre ++ xs) g)
+  | .nil, _, k, pre, xs, _, _ => by intro g hg; simp [fieldCs] at hg
+  | .cons n l kd t rest, h, k, pre, xs, hk, hok => by
+    simp only [allSkip, Bool.and_eq_true, beq_iff_eq] at h
+    cases xs with
+    | nil => simp [okFields] at hok
+    | cons x xs' =>
+      obtain ⟨⟨hkd, hd⟩, hrest⟩ := h
+      subst hkd
+      simp only [okFields, beq_self_eq_true, ↓reduceIte, Bool.and_eq_true] at hok
+      intro g hg
+      simp only [fieldCs, List.mem_cons] at hg
+      rcases hg with rfl | hg
+      · refine ⟨rfl, ?_⟩
+        have hv : fieldVal (pre ++ x :: xs') ⟨k, n, l, .skip, codecOf t⟩ = x := by
+          simp only [fieldVal]; rw [← hk]; exact getD_append_length pre x xs'
+        rw [hv]; exact dflt_of_isDflt t x hd hok.1
+      · have := allSkip_fields rest hrest (k + 1) (pre ++ [x]) xs' (by simp [hk]) hok.2 g hg
+        rw [List.append_assoc] at this
+        simpa using this
+
+theorem newtypeField_skip_all {l : List FieldC} (h : ∀ g ∈ l, g.kind = .skip) : newtypeField l = none := by
+  unfold newtypeField
+  rw [List.find?_eq_none]
+  intro g hg
+  simp [h g hg]
+
+/-- What `good_nt` establishes for the fields of a newtype struct at offset `k`. -/
+def NTGood (fs : Fields) : Prop :=
+  ∀ (k : Nat), ∃ (f : FieldC) (t : Ty),
+    f ∈ fieldCs fs k ∧ newtypeField (fieldCs fs k) = some f ∧ f.c = codecOf t ∧ Good t
+    ∧ acceptsExtantNT fs = acceptsExtant t ∧ acceptsBareNT fs = acceptsBare t
+    ∧ ∀ (pre xs : List Inst), pre.length = k → okFields fs xs = true →
+        okInst t (fieldVal (pre ++ xs) f) = true
+        ∧ (∀ g ∈ fieldCs fs k, g.kind = .skip → g.c.dflt = some (fieldVal (pre ++ xs) g))
+        ∧ (∀ g ∈ fieldCs fs k, g.kind ≠ .skip → g.idx = f.idx)
+
+theorem good_newtype (fs : Fields) (h : NTGood fs) : Good (.newtype fs) := by
+  obtain ⟨f, t, hfm, hnf, hc, g, hae, hab, hdyn⟩ := h 0
+  have hdec : ∀ x, okInst (.newtype fs) x = true →
+      (codecOf (.newtype fs)).dec ((codecOf (.newtype fs)).enc x) = some x := by
+    intro x hx
+    cases x <;> simp [okInst] at hx
+    rename_i xs
+    obtain ⟨hok, hskip, huniq⟩ := hdyn [] xs rfl hx
+    simp only [List.nil_append] at hok hskip huniq
+    simp only [codecOf, newtypeCodec, hnf, newtypeDec, hc]
+    rw [g.dec_enc _ hok]
+    simp only
+    have hasm : assemble [(f.idx, fieldVal xs f)] (fieldCs fs 0) = some ((fieldCs fs 0).map (fieldVal xs)) := by
+      apply assemble_ok xs _ (consistent_pairsOf xs [f]) (fieldCs fs 0)
+      · exact hskip
+      · intro g' hg' hk
+        left
+        rw [huniq g' hg' hk]
+        exact has_pairsOf (List.mem_singleton.mpr rfl)
+    rw [hasm]
+    have := map_fieldVal_fieldCs fs 0 [] xs rfl hx
+    simp only [List.nil_append] at this
+    rw [this]; rfl
+  have henc : ∀ xs, (codecOf (.newtype fs)).enc (.struct xs) = (codecOf t).enc (fieldVal xs f) := by
+    intro xs; simp [codecOf, newtypeCodec, hnf, hc]
+  have hdecv : ∀ v, (codecOf t).dec v = none → (codecOf (.newtype fs)).dec v = none := by
+    intro v hv; simp [codecOf, newtypeCodec, newtypeDec, hnf, hc, hv]
+  refine ⟨hdec, fun _ => hdec, ?_, ?_, ?_, ?_, ?_, ?_, ?_⟩
+  · intro names hb; simp [bodySafe] at hb
+  · intro x _ ho; simp [codecOf, newtypeCodec] at ho
+  · intro hne x hx
+    cases x <;> simp [okInst] at hx
+    rename_i xs
+    obtain ⟨hok, _, _⟩ := hdyn [] xs rfl hx
+    simp only [List.nil_append] at hok
+    rw [henc]
+    exact g.notExtant (by rw [← hae]; simpa [acceptsExtant] using hne) _ hok
+  · intro hne
+    exact hdecv _ (g.decExtant (by rw [← hae]; simpa [acceptsExtant] using hne))
+  · intro hnb items
+    exact hdecv _ (g.bare (by rw [← hab]; simpa [acceptsBare] using hnb) items)
+  · intro hs x _ rest
+    have hnb : acceptsBare t = false := by rw [← hab]; simpa [hbSafe, acceptsBare] using hs
+    exact hdecv _ (g.bare hnb _)
+  · intro hd; simp [hasDflt] at hd
+
 mutual
 theorem good_ty : (t : Ty) → tyWF t = true → Good t
   | .int k, _ => good_int k
@@ -535,7 +659,9 @@ theorem good_ty : (t : Ty) → tyWF t = true → Good t
   | .struct tag fs, h => by
     simp only [tyWF, Bool.and_eq_true] at h
     exact good_struct tag fs h.2 (good_fields fs (attrNames fs) h.1)
-  | .newtype _, h => by simp [tyWF] at h
+  | .newtype fs, h => by
+    simp only [tyWF] at h
+    exact good_newtype fs (good_nt fs h)
   | .enum vs, h => by
     simp only [tyWF, Bool.and_eq_true] at h
     exact good_enum vs h.2 (good_variants vs h.1)
@@ -561,6 +687,70 @@ theorem good_fields : (fs : Fields) → (names : List String) → fieldsWF names
       · have := good_fields rest names h.2 tbl hlink (k + 1) (pre ++ [x]) xs' (by simp [hk]) hok.2 f hf
         rw [List.append_assoc] at this
         simpa using this
+theorem good_nt : (fs : Fields) → ntWF fs = true → NTGood fs
+  | .nil, h => by simp [ntWF] at h
+  | .cons n l kd t rest, h => by
+    intro k
+    by_cases hkd : kd = .skip
+    · subst hkd
+      simp only [ntWF, beq_self_eq_true, ↓reduceIte, Bool.and_eq_true] at h
+      obtain ⟨f, t', hfm, hnf, hc, g, hae, hab, hdyn⟩ := good_nt rest h.2 (k + 1)
+      refine ⟨f, t', ?_, ?_, hc, g, ?_, ?_, ?_⟩
+      · simp [fieldCs, hfm]
+      · simp only [fieldCs, newtypeField, List.find?_cons, beq_self_eq_true, Bool.not_true]
+        exact hnf
+      · simp [acceptsExtantNT, hae]
+      · simp [acceptsBareNT, hab]
+      · intro pre xs hk hok
+        cases xs with
+        | nil => simp [okFields] at hok
+        | cons x xs' =>
+          simp only [okFields, beq_self_eq_true, ↓reduceIte, Bool.and_eq_true] at hok
+          have := hdyn (pre ++ [x]) xs' (by simp [hk]) hok.2
+          rw [List.append_assoc] at this
+          simp only [List.singleton_append] at this
+          obtain ⟨h1, h2, h3⟩ := this
+          refine ⟨h1, ?_, ?_⟩
+          · intro g' hg' hs
+            simp only [fieldCs, List.mem_cons] at hg'
+            rcases hg' with rfl | hg'
+            · have hv : fieldVal (pre ++ x :: xs') ⟨k, n, l, .skip, codecOf t⟩ = x := by
+                simp only [fieldVal]; rw [← hk]; exact getD_append_length pre x xs'
+              rw [hv]; exact dflt_of_isDflt t x h.1 hok.1
+            · exact h2 g' hg' hs
+          · intro g' hg' hns
+            simp only [fieldCs, List.mem_cons] at hg'
+            rcases hg' with rfl | hg'
+            · exact absurd rfl hns
+            · exact h3 g' hg' hns
+    · have hkd' : (kd == FKind.skip) = false := by simpa using hkd
+      simp only [ntWF, hkd', Bool.false_eq_true, ↓reduceIte, Bool.and_eq_true] at h
+      refine ⟨⟨k, n, l, kd, codecOf t⟩, t, ?_, ?_, rfl, good_ty t h.1, ?_, ?_, ?_⟩
+      · simp [fieldCs]
+      · simp [fieldCs, newtypeField, List.find?_cons, hkd']
+      · simp [acceptsExtantNT, hkd']
+      · simp [acceptsBareNT, hkd']
+      · intro pre xs hk hok
+        cases xs with
+        | nil => simp [okFields] at hok
+        | cons x xs' =>
+          simp only [okFields, hkd', Bool.false_eq_true, ↓reduceIte, Bool.and_eq_true] at hok
+          have hv : fieldVal (pre ++ x :: xs') ⟨k, n, l, kd, codecOf t⟩ = x := by
+            simp only [fieldVal]; rw [← hk]; exact getD_append_length pre x xs'
+          have hall := allSkip_fields rest h.2 (k + 1) (pre ++ [x]) xs' (by simp [hk]) hok.2
+          rw [List.append_assoc] at hall
+          simp only [List.singleton_append] at hall
+          refine ⟨by rw [hv]; exact hok.1, ?_, ?_⟩
+          · intro g' hg' hs
+            simp only [fieldCs, List.mem_cons] at hg'
+            rcases hg' with rfl | hg'
+            · exact absurd hs hkd
+            · exact (hall g' hg').2
+          · intro g' hg' hns
+            simp only [fieldCs, List.mem_cons] at hg'
+            rcases hg' with rfl | hg'
+            · rfl
+            · exact absurd (hall g' hg').1 hns
 theorem good_variants : (vs : Variants) → variantsWF vs = true → VariantsGood vs
   | .nil, _ => by
     intro k xs h
